@@ -452,3 +452,72 @@ Theorem C04_separating_boolean : forall (H P : C06_Model.graph),
   id_separatingb H P = true -> separating H P (id_map (node_ids P)).
 Proof. exact id_separatingb_sound. Qed.
 Print Assumptions C04_separating_boolean.
+
+(** * comp / bt for the reaction's OWN templates: the four instances of the two theorems above (implicit mode: the template with
+    its decomposed reactant side; default mode: the prepared rule with the stripped pattern, substrate and other side with
+    implicit hydrogens, result before _explicit_h -- C04_explicit_h_keeps_reaction takes it to the end), with the separation
+    premise as the monitored boolean.  Together with C04_in_results_engine_partial / _default_partial (strategy ALL) and
+    C04_comp_bt_refuted this settles the quantifier "strategies comp / bt / all" of the property up to RDKit. *)
+Theorem C04_own_comp_implicit : forall (enum : list N -> list N -> list C06_Model.mapping) (core invert : bool) (G H : hostg),
+  pair_wfb G H = true -> no_explicit_H G = true ->
+  (core = true -> centre_carries (its_construct G H) = true) ->
+  forallb (fun p : N * mnode => 0 <=? m_hc (snd p)) (gnodes (dec_side iG C03_Model.eG (template core invert G H))) = true ->
+  gwf (tr_host (if invert then H else G)) -> gwf (tr_pat (dec_side iG C03_Model.eG (template core invert G H))) ->
+  oracle_ok enum (tr_host (if invert then H else G)) (tr_pat (dec_side iG C03_Model.eG (template core invert G H))) ->
+  (0 <? length (comps (tr_pat (dec_side iG C03_Model.eG (template core invert G H)))))%nat && (length (comps (tr_pat (dec_side iG C03_Model.eG (template core invert G H)))) <? length (comps (tr_host (if invert then H else G))))%nat = false ->
+  ((length (comps (tr_host (if invert then H else G))) <? length (comps (tr_pat (dec_side iG C03_Model.eG (template core invert G H)))))%nat = true \/ id_separatingb (tr_host (if invert then H else G)) (tr_pat (dec_side iG C03_Model.eG (template core invert G H))) = true) ->
+  exists T0 : N, forall (T : N) (o : ropts), (T0 <= T)%N ->
+    o_strategy o = SMember 1%N -> o_thr o = Some T -> o_pref o = false ->
+    exists (ms : list C03_Model.mapping) (y : C03_Model.mapping) (T' : its),
+      compute_mappings (api_engine enum) o (if invert then H else G) (template core invert G H, dec_side iG C03_Model.eG (template core invert G H), dec_side iH C03_Model.eH (template core invert G H)) = Some ms /\ In y ms /\
+      glue (if invert then H else G) (template core invert G H) y = Some T' /\ regen_exact T' (if invert then H else G) (if invert then G else H) = true.
+Proof. exact own_comp_implicit. Qed.
+Print Assumptions C04_own_comp_implicit.
+
+Theorem C04_own_bt_implicit : forall (enum : list N -> list N -> list C06_Model.mapping) (core invert : bool) (G H : hostg),
+  pair_wfb G H = true -> no_explicit_H G = true ->
+  (core = true -> centre_carries (its_construct G H) = true) ->
+  forallb (fun p : N * mnode => 0 <=? m_hc (snd p)) (gnodes (dec_side iG C03_Model.eG (template core invert G H))) = true ->
+  gwf (tr_host (if invert then H else G)) -> gwf (tr_pat (dec_side iG C03_Model.eG (template core invert G H))) ->
+  oracle_ok enum (tr_host (if invert then H else G)) (tr_pat (dec_side iG C03_Model.eG (template core invert G H))) ->
+  ((0 <? length (comps (tr_pat (dec_side iG C03_Model.eG (template core invert G H)))))%nat && (length (comps (tr_pat (dec_side iG C03_Model.eG (template core invert G H)))) <? length (comps (tr_host (if invert then H else G))))%nat = true \/ (length (comps (tr_host (if invert then H else G))) <? length (comps (tr_pat (dec_side iG C03_Model.eG (template core invert G H)))))%nat = true \/ id_separatingb (tr_host (if invert then H else G)) (tr_pat (dec_side iG C03_Model.eG (template core invert G H))) = true) ->
+  exists T0 : N, forall (T : N) (o : ropts), (T0 <= T)%N ->
+    o_strategy o = SMember 2%N -> o_thr o = Some T -> o_pref o = false ->
+    exists (ms : list C03_Model.mapping) (y : C03_Model.mapping) (T' : its),
+      compute_mappings (api_engine enum) o (if invert then H else G) (template core invert G H, dec_side iG C03_Model.eG (template core invert G H), dec_side iH C03_Model.eH (template core invert G H)) = Some ms /\ In y ms /\
+      glue (if invert then H else G) (template core invert G H) y = Some T' /\ regen_exact T' (if invert then H else G) (if invert then G else H) = true.
+Proof. exact own_bt_implicit. Qed.
+Print Assumptions C04_own_bt_implicit.
+
+Theorem C04_own_comp_default : forall (enum : list N -> list N -> list C06_Model.mapping) (core invert : bool) (G H : hostg),
+  pair_wfb G H = true -> mode_E G H = true ->
+  default_okb (if invert then H else G) (if invert then G else H) (template core invert G H) = true ->
+  (core = true -> centre_carries (its_construct G H) = true) ->
+  forall (rc : its) (l r : molg), rule_of core invert G H = Some (rc, l, r) ->
+  forallb (fun p : N * mnode => 0 <=? m_hc (snd p)) (gnodes l) = true ->
+  gwf (tr_host (substrate invert G H)) -> gwf (tr_pat l) -> oracle_ok enum (tr_host (substrate invert G H)) (tr_pat l) ->
+  (0 <? length (comps (tr_pat l)))%nat && (length (comps (tr_pat l)) <? length (comps (tr_host (substrate invert G H))))%nat = false ->
+  ((length (comps (tr_host (substrate invert G H))) <? length (comps (tr_pat l)))%nat = true \/ id_separatingb (tr_host (substrate invert G H)) (tr_pat l) = true) ->
+  exists T0 : N, forall (T : N) (o : ropts), (T0 <= T)%N ->
+    o_strategy o = SMember 1%N -> o_thr o = Some T -> o_pref o = false ->
+    exists (ms : list C03_Model.mapping) (y : C03_Model.mapping) (T' : its),
+      compute_mappings (api_engine enum) o (substrate invert G H) (rc, l, r) = Some ms /\ In y ms /\
+      glue (substrate invert G H) (rc) y = Some T' /\ regen_exact T' (substrate invert G H) (h_to_implicit_host (if invert then G else H)) = true.
+Proof. exact own_comp_default. Qed.
+Print Assumptions C04_own_comp_default.
+
+Theorem C04_own_bt_default : forall (enum : list N -> list N -> list C06_Model.mapping) (core invert : bool) (G H : hostg),
+  pair_wfb G H = true -> mode_E G H = true ->
+  default_okb (if invert then H else G) (if invert then G else H) (template core invert G H) = true ->
+  (core = true -> centre_carries (its_construct G H) = true) ->
+  forall (rc : its) (l r : molg), rule_of core invert G H = Some (rc, l, r) ->
+  forallb (fun p : N * mnode => 0 <=? m_hc (snd p)) (gnodes l) = true ->
+  gwf (tr_host (substrate invert G H)) -> gwf (tr_pat l) -> oracle_ok enum (tr_host (substrate invert G H)) (tr_pat l) ->
+  ((0 <? length (comps (tr_pat l)))%nat && (length (comps (tr_pat l)) <? length (comps (tr_host (substrate invert G H))))%nat = true \/ (length (comps (tr_host (substrate invert G H))) <? length (comps (tr_pat l)))%nat = true \/ id_separatingb (tr_host (substrate invert G H)) (tr_pat l) = true) ->
+  exists T0 : N, forall (T : N) (o : ropts), (T0 <= T)%N ->
+    o_strategy o = SMember 2%N -> o_thr o = Some T -> o_pref o = false ->
+    exists (ms : list C03_Model.mapping) (y : C03_Model.mapping) (T' : its),
+      compute_mappings (api_engine enum) o (substrate invert G H) (rc, l, r) = Some ms /\ In y ms /\
+      glue (substrate invert G H) (rc) y = Some T' /\ regen_exact T' (substrate invert G H) (h_to_implicit_host (if invert then G else H)) = true.
+Proof. exact own_bt_default. Qed.
+Print Assumptions C04_own_bt_default.
